@@ -13,6 +13,7 @@ CONSTANTS
  LockPut = TRUE
  LockDel = TRUE
  LockDelEarly = TRUE
+ ObsFilters = {"none", "t1", "x"}
  CowIndex = TRUE
 INIT MInit
 NEXT MNext
